@@ -220,6 +220,9 @@ pub enum Dest {
     SymlinkToContent,
     /// an existing (empty) directory: nothing can be extracted onto it
     Directory,
+    /// an existing regular file of exactly the entry's length holding other bytes (`#`...);
+    /// like `Existing` when the content is not a regular file
+    ExistingSameLength,
 }
 
 /// Where a writer is abandoned (C14).
